@@ -28,7 +28,7 @@ class Gen:
     def choose(s, name, k): return s.e.choose(name, k)
 
 
-def gen_doc(e, shape, L, final_nl_free=True, w=2):
+def gen_doc(e, shape, L, final_nl_free=True, w=2, cont_hash=False):
     """returns (text: list of chars, paras: [[(name chars, [line chars...])...]...], kinds: [line kinds])
 
     S1: one layout per line kind: 'k: v' / ' v' / '#c' / '' with 1-char names and value lines, chars fully symbolic
@@ -60,10 +60,10 @@ def gen_doc(e, shape, L, final_nl_free=True, w=2):
         elif kind == 'cont':
             if shape == 'S3':
                 ind = [(32 if g.choose('it', 2) == 0 else 9) for _ in range(g.choose('il', w) + 1)]
-                v = [g.ch('v', contstart)] + ([g.ch('v', valch)] if g.choose('vl', 2) else [])
+                v = [g.ch('v', valstart if cont_hash else contstart)] + ([g.ch('v', valch)] if g.choose('vl', 2) else [])
             else:
                 ind = [32]
-                v = [g.ch('v', contstart)]
+                v = [g.ch('v', valstart if cont_hash else contstart)]
             text += ind + v; cur[-1][1].append(v)
         elif kind == 'comment':
             if shape == 'S3': cm = [g.ch('c', valch) for _ in range(g.choose('cl', w + 1))]
